@@ -68,47 +68,81 @@ func verifPrePassLemmas(data string) {
 	if !ok {
 		return
 	}
-	// lines: what the lexer takes for lines - a line feed or a carriage return ends one (CR LF gives an empty
-	// line in between, on both sides alike)
-	// (a CR LF gives an empty line between the two on both sides alike: the lemmas are tied to an implementation that
-	// keeps the CR of a CR LF; one that drops it would have to be given the corresponding reading of "line" here)
-	dl := strings.Split(strings.ReplaceAll(data, "\r", "\n"), "\n")
-	cl := strings.Split(strings.ReplaceAll(cleaned, "\r", "\n"), "\n")
-	zzverif.Assert(len(cl) <= len(dl), "no-line-added")
-	if len(cl) > len(dl) {
+	// lines as the code and ANTLR count them (at line feeds); inside a line, a carriage return ends a segment -
+	// a line break of the grammar as well (NEWLINE: ... '\r'? '\n' | '\r' | ...), so a comment ends there
+	dn := strings.Split(data, "\n")
+	cn := strings.Split(cleaned, "\n")
+	zzverif.Assert(len(cn) <= len(dn), "no-line-added")
+	if len(cn) > len(dn) {
 		return
 	}
-	for i := range dl {
-		d := dl[i]
-		if i >= len(cl) {
-			// dropped at the end: the original line holds nothing but blanks or a comment
-			zzverif.Assert(zzverif.Or(verifAllSpaces(d), verifCommentLine(d)), "only-empty-lines-dropped-at-end")
+	for i := range dn {
+		ds := strings.Split(dn[i], "\r")
+		if i >= len(cn) {
+			// dropped at the end: the original line holds nothing but blanks, carriage returns or comments
+			for _, d := range ds {
+				zzverif.Assert(zzverif.Or(verifAllSpaces(d), verifCommentLine(d)), "only-empty-lines-dropped-at-end")
+			}
 			continue
 		}
-		c := cl[i]
-		zzverif.Assert(len(c) <= len(d), "cleaned-line-not-longer")
-		if len(c) > len(d) {
+		cs := strings.Split(cn[i], "\r")
+		zzverif.Class("comment-ends-at-the-line-break-of-the-grammar", "lone carriage return as line end")
+		zzverif.Assert(len(cs) == len(ds), "comment-ends-at-the-line-break-of-the-grammar")
+		if len(cs) != len(ds) {
 			return
 		}
-		zzverif.Assert(d[:len(c)] == c, "cleaned-line-is-prefix")
-		rest := d[len(c):]
-		// removed part: blanks only, or blanks (at least one) followed by a '#' comment,
-		// or the whole line when its first non-blank byte is '#'
-		cut := zzverif.Or(verifAllSpaces(rest), zzverif.Or(zzverif.And(strings.HasPrefix(rest, " "), verifCommentLine(rest)), zzverif.And(len(c) == 0, verifCommentLine(d))))
-		zzverif.Assert(cut, "only-comment-or-trailing-blanks-removed")
-		// a comment ends where the line ends for the lexer: a carriage return that is not the CR of a CR LF
-		// is a line break of the grammar (NEWLINE: ... '\r'? '\n' | '\r' | ...), what follows it is not comment
-		// (with lines ending at carriage returns too this is implied by the line count; kept as the named lemma)
-		noCR := true
-		for k := 0; k < len(rest); k++ {
-			noCR = zzverif.And(noCR, rest[k] != '\r')
-		}
-		zzverif.Class("comment-ends-at-the-line-break-of-the-grammar", "lone carriage return as line end")
-		zzverif.Assert(noCR, "comment-ends-at-the-line-break-of-the-grammar")
-		if len(c) > 0 {
-			zzverif.Assert(c[len(c)-1] != ' ', "trailing-blanks-removed")
+		for k := range ds {
+			d, c := ds[k], cs[k]
+			zzverif.Assert(len(c) <= len(d), "cleaned-line-not-longer")
+			if len(c) > len(d) {
+				return
+			}
 			zzverif.Assert(zzverif.Not(verifContains2(c, ' ', '#')), "trailing-comment-removed")
 			zzverif.Assert(zzverif.Not(verifCommentLine(c)), "comment-line-removed")
+			if k < len(ds)-1 {
+				// a segment in front of a carriage return: same length (what was cut is blanked out, so that the
+				// rest of the line keeps its columns); from the first changed column on nothing but blanks,
+				// and only a comment or trailing blanks can have been changed
+				zzverif.Assert(len(c) == len(d), "segment-before-carriage-return-keeps-its-length")
+				if len(c) != len(d) {
+					return
+				}
+				changed, okTail := false, true
+				for j := 0; j < len(c); j++ {
+					changed = zzverif.Or(changed, c[j] != d[j])
+					okTail = zzverif.And(okTail, zzverif.Or(zzverif.Not(changed), c[j] == ' '))
+				}
+				zzverif.Assert(okTail, "cleaned-line-is-prefix")
+				zzverif.Assert(zzverif.Or(zzverif.Not(changed), zzverif.Or(verifContains2(d, ' ', '#'), verifCommentLine(d))), "only-comment-or-trailing-blanks-removed")
+				continue
+			}
+			// the last segment of a line: a prefix of the original, what was cut off is a comment or blanks
+			zzverif.Assert(d[:len(c)] == c, "cleaned-line-is-prefix")
+			rest := d[len(c):]
+			cut := zzverif.Or(verifAllSpaces(rest), zzverif.Or(zzverif.And(strings.HasPrefix(rest, " "), verifCommentLine(rest)), zzverif.And(len(c) == 0, verifCommentLine(d))))
+			zzverif.Assert(cut, "only-comment-or-trailing-blanks-removed")
+			if len(c) > 0 {
+				zzverif.Assert(c[len(c)-1] != ' ', "trailing-blanks-removed")
+			}
+		}
+	}
+	// C16: a position in the cleaned text is a position in the original text - line for line (lines as ANTLR counts
+	// them: at line feeds) the cleaned line is no longer than the original and agrees with it at every column,
+	// except where it holds a blank (a removed comment in front of a carriage return may be blanked out)
+	{
+		for i := range cn {
+			if i >= len(dn) {
+				break
+			}
+			zzverif.Assert(len(cn[i]) <= len(dn[i]), "columns-are-preserved")
+			if len(cn[i]) > len(dn[i]) {
+				continue
+			}
+			same := true
+			for j := 0; j < len(cn[i]); j++ {
+				same = zzverif.And(same, zzverif.Or(cn[i][j] == dn[i][j], cn[i][j] == ' '))
+			}
+			zzverif.Assert(same, "columns-are-preserved")
 		}
 	}
 	if nl := strings.Split(cleaned, "\n"); len(nl) > 1 {
